@@ -368,8 +368,11 @@ def suite_electrodes(ctx):
     nv0 = len(ctx.violations)
     for t in range(200 if ctx.thorough else 60):
         c = rng.uniform(-50, 50, 3)
-        az = float(rng.choice([rng.uniform(-179.9, 180), 0, 90, 180, -90]))
-        el = float(rng.choice([rng.uniform(-90, 90), 0, 90, -90, 45]))
+        az = float(rng.choice([rng.uniform(-179.9, 180), 0, 90, 180, -90,
+                               0.05, 89.9, 179.97, -90.2]))
+        # steep (but not vertical) and nearly horizontal dipoles included
+        el = float(rng.choice([rng.uniform(-90, 90), 0, 90, -90, 45, 89.8,
+                               89.95, 89.995, -89.9, 0.05, -0.01]))
         length = float(rng.uniform(0.5, 300))
         dip = E.point_to_dipole((*c, az, el), length)
         a2, e2, l2 = E.dipole_to_point(dip)
